@@ -221,8 +221,6 @@ func sortedKeys[M ~map[string]V, V any](m M) []string {
 	return out
 }
 
-func fmtSet(m map[string]bool) string { return fmt.Sprint(sortedKeys(m)) }
-
 // codeOf evaluates T.String() on a value.
 func (e *Env) codeOf(t types.Type, v facts.Value) (string, bool, string) {
 	m := load.MethodOf(t, "String")
@@ -295,4 +293,13 @@ func (e *Env) pathName(who string, lf *ir.Leaf) string {
 		short = short[:90] + "..."
 	}
 	return fmt.Sprintf("%s path {%s}#%08x returning at %s", who, short, h.Sum32(), e.P.Pos(lf.Pos))
+}
+
+func init() {
+	// the cvsserr sentinels: distinct errors.New values that are never reassigned (rules sentinel-distinct and
+	// table-immutability decide that); a comparison of one of them with nil is therefore decided
+	ir.NonNilGlobal = func(obj types.Object) bool {
+		v, ok := obj.(*types.Var)
+		return ok && v.Pkg() != nil && v.Pkg().Path() == load.ModPath+"/cvsserr" && types.Identical(v.Type(), errorType)
+	}
 }
